@@ -520,12 +520,12 @@ def rule_p3(ctx, F):
 
 
 def run(ctx):
-    # the order in which the highlighter receives captures is the query cursor's: its finished-match heap (shared with C11.H1)
+    # the order in which the highlighter receives captures is the query cursor's: its finished-match heap (C11.P3, run here too)
     for cfg in configs(ctx):
         ctx.config = cfg
         FC = ctx.extract.cfacts(cfg)
         import C11
-        C11.rule_heap(ctx, FC)
+        C11.rule_p3(ctx, FC)
     ctx.config = "rust"
     F = ctx.extract.rsfacts(CRATE)
     ctx.analysed["rust_functions"] = len(F.fn_list)
